@@ -10,11 +10,13 @@
 (*   ForgetLink     an open hyperlink closed for a cursor move is believed   *)
 (*                  to be still open                                         *)
 (*   ShowHidden     the cursor-only flush ignores "hidden"                   *)
+(*   ~Rehide        a full repaint does not hide again a cursor that was     *)
+(*                  hidden before and stays hidden                           *)
 EXTENDS RefTerm, TLC
 
 CONSTANTS N,                 \* columns (one row)
           Sync, XW,          \* capabilities: synchronized output, explicit width
-          HiddenAsZero, ForgetLink, ShowHidden
+          HiddenAsZero, ForgetLink, ShowHidden, Rehide
 
 (* ---- application cells -------------------------------------------------- *)
 (* [g, w, at, fg, ln]: grapheme id, explicit width (0 = measure), attribute  *)
@@ -79,7 +81,8 @@ ShowCursor(cn) == <<[ev |-> "curs", n |-> cn.shape], [ev |-> "cup", r |-> 1, c |
 (* render() + Flush() for one frame; cn = cursor as requested. *)
 Frame(nxt, cn, full) ==
   LET r    == Row(nxt, 1, TRUE, [at |-> 0, fg |-> 0, ln |-> 0], last, <<>>, full)
-      body == r.cmds \o (IF cn.vis /\ ~curLast.vis THEN ShowCursor(cn) ELSE <<>>)
+      re   == IF full /\ Rehide /\ ~cn.vis /\ ~curLast.vis THEN <<[ev |-> "set", m |-> 25, v |-> FALSE]>> ELSE <<>>
+      body == re \o r.cmds \o (IF cn.vis /\ ~curLast.vis THEN ShowCursor(cn) ELSE <<>>)
       pro  == (IF curLast.vis THEN <<[ev |-> "set", m |-> 25, v |-> FALSE]>> ELSE <<>>)
               \o (IF Sync THEN <<[ev |-> "set", m |-> 2026, v |-> TRUE]>> ELSE <<>>)
       epi  == <<[ev |-> "sgr", ps |-> <<>>]>> \o (IF cn.vis /\ curLast.vis THEN ShowCursor(cn) ELSE <<>>)
